@@ -337,34 +337,8 @@ def spaced(ins):
     return [s for s in ins if ' ' in s]
 
 
-def single_rule(max_nodes, leaves='full', name='start', exact=False):
-    out = []
-    for n in range(max_nodes if exact else 1, max_nodes + 1):
-        for body in G.exprs(n, 'expre', (), leaves):
-            d = ((name, body),)
-            if G.canonical(d):
-                out.append(d)
-    return out
-
-
-def two_rule(start_nodes, callee_nodes, leaves='full', callee_leaves='full', names=('r', 'R'), exact=False,
-             callees=None):
-    out = []
-    if callees is None:
-        callees = [c for m in range(1, callee_nodes + 1) for c in G.exprs(m, 'expre', (), callee_leaves)]
-    for callee in names:
-        for n in range(start_nodes if exact else 1, start_nodes + 1):
-            for body in G.exprs(n, 'expre', (callee,), leaves):
-                if not G._has_call(body, callee):
-                    continue
-                for cbody in callees:
-                    d = (('start', body), (callee, cbody))
-                    if G.canonical(d):
-                        out.append(d)
-    return out
-
-
-T = lambda s: ('tok', s)  # noqa: E731
+single_rule, two_rule, CALLEES, IN_MID = G.single_rule, G.two_rule, G.CALLEES, G.IN_MID
+T = G._T
 
 
 def seq(*a):
@@ -373,18 +347,6 @@ def seq(*a):
 
 def ch(*a):
     return ('choice', tuple(a))
-
-
-# one callee per shape a rule value can take (str, None, list, closed list, dict, override of each kind) and
-# one that fails after a cut
-CALLEES = (
-    T('a'), ('pat', 'a+'), ('void',), ('opt', T('a')), ('closure', T('a')), seq(T('a'), T('b')),
-    ('named', 'x', T('a')), ('override', T('a')), ('overridelist', T('a')),
-    ('override', ('group', seq(T('a'), T('b')))), seq(T('a'), ('cut',), T('b')),
-)
-
-# all inputs over {a,b} up to length 3 and the blank in every position relative to one or two letters
-IN_MID = tuple(G.inputs('ab', 3)) + (' a', 'a ', 'a b', 'b a', ' ab', 'ab ', 'a a', 'b b')
 
 
 def curated():
@@ -592,6 +554,9 @@ def run(tier='quick', seed=0, info=None):
     sample = []
 
     def go(name, descs, plan, **kw):
+        if budget.left() <= 0 or ('budget' in kw and kw['budget'].left() <= 0):
+            summary.append((name + ' (NOT RUN: time budget)', new_stats(), 0.0))
+            return
         descs = list(descs)
         if not name.startswith('random'):
             sample.extend(every(descs, 30 if tier == 'quick' else 150))
